@@ -58,7 +58,10 @@ macro_rules! tuples { ($( ($($n:tt $T:ident),+) )*) => { $(
 tuples!((0 A) (0 A, 1 B) (0 A, 1 B, 2 C) (0 A, 1 B, 2 C, 3 D));
 impl<K: Show, V: Show> Show for BTreeMap<K, V> { fn show(&self, o: &mut Vec<String>) {
     o.push("[".into()); for (k, v) in self { o.push("[".into()); k.show(o); v.show(o); o.push("]".into()); } o.push("]".into()); } }
-impl<K: Arb + Ord, V: Arb> Arb for BTreeMap<K, V> { fn arb(g: &mut Rng, d: u32) -> Self { let n = len_small(g, d); (0..n).map(|_| (K::arb(g, d + 1), V::arb(g, d + 1))).collect() } }
+impl<K: Arb + Ord, V: Arb> Arb for BTreeMap<K, V> { fn arb(g: &mut Rng, d: u32) -> Self {
+    // empty and singleton maps are boundary shapes of their own (a present-but-empty bundle, `{ policy => {} }`)
+    let n = match g.below(6) { 0 => 0, 1 => 1.min(len_small(g, d).max(if d >= MAXD { 0 } else { 1 })), _ => len_small(g, d) };
+    (0..n).map(|_| (K::arb(g, d + 1), V::arb(g, d + 1))).collect() } }
 
 impl Show for Bytes { fn show(&self, o: &mut Vec<String>) { o.push(format!("b{}", hx(self))); } }
 fn arb_bytes(g: &mut Rng) -> Vec<u8> { let n = match g.below(5) { 0 => *g.pick(&[0usize, 23, 24, 28, 32, 64, 255, 256]), _ => g.below(40) as usize }; g.bytes(n) }
@@ -119,8 +122,10 @@ impl Arb for RationalNumber { fn arb(g: &mut Rng, d: u32) -> Self { RationalNumb
 impl Show for pallas_primitives::conway::CostModels { fn show(&self, o: &mut Vec<String>) {
     o.push("[".into()); self.plutus_v1.show(o); self.plutus_v2.show(o); self.plutus_v3.show(o); self.unknown.show(o); o.push("]".into()); } }
 impl Arb for pallas_primitives::conway::CostModels { fn arb(g: &mut Rng, d: u32) -> Self {
+    // language ids without a dedicated field, right next to the known ones and at the width boundaries
+    const UNKNOWN: [u64; 9] = [3, 4, 5, 23, 24, 255, 256, 1 << 32, u64::MAX];
     let mut unknown = BTreeMap::new();
-    if g.chance(1, 3) { for _ in 0..g.range(1, 2) { unknown.insert(*g.pick(&[3u64, 4, 23, 24, 255, 256, u64::MAX]), Vec::<i64>::arb(g, d + 2)); } }
+    if g.chance(1, 2) { for _ in 0..g.range(1, 3) { unknown.insert(*g.pick(&UNKNOWN), Vec::<i64>::arb(g, d + 2)); } }
     pallas_primitives::conway::CostModels { plutus_v1: Arb::arb(g, d + 1), plutus_v2: Arb::arb(g, d + 1), plutus_v3: Arb::arb(g, d + 1), unknown } } }
 
 // ---- PlutusData is carried as an opaque item here (its codec is C07's subject)
